@@ -51,7 +51,7 @@ def plan(tier):
         return specs
     specs = [{"part": "pair", "mtus": list(range(512 + i, 1501, 16)), "kmax": 4, "stride": 1} for i in range(16)]
     specs += [{"part": "limit"}]
-    specs += [{"part": "world", "n": 800, "i": i, "strict": i % 2 == 0} for i in range(15)]
+    specs += [{"part": "world", "n": 5000, "i": i, "strict": i % 2 == 0} for i in range(15)]
     return specs
 
 
